@@ -163,6 +163,9 @@ def render(rnd, rows, env, ams=True, dangling=False):
                             s += ' '
                         s += a[1]
                     emit(s)
+                elif it[2] == 'ytxtz':
+                    # the text part is supplied by a user macro (\\newcommand{\\ytxt}{\\mbox{ ytxtz }}): generated text
+                    emit('\\ytxt{}')
                 else:
                     m = rnd.choice(['\\text', '\\mbox'] if ams else ['\\mbox'])
                     emit(m + '{' + it[1])
@@ -215,16 +218,28 @@ class C11(core.Check):
         neq = rnd.randint(1, 4)
         src = ''
         redef = case['s'] % 6 == 1
+        macrotext = case['s'] % 5 == 2
+        if macrotext:
+            # a text part that comes from the body of a user macro, used in several equations
+            src = '\\newcommand{\\ytxt}{\\mbox{ ytxtz }}\n'
         if redef:
             # relation macros re-defined by the user (a common preamble line) are still operators of the scheme
-            src = ('\\renewcommand{\\le}{\\leqslant}\n\\newcommand{\\to}{\\longrightarrow}\n'
+            src += ('\\renewcommand{\\le}{\\leqslant}\n\\newcommand{\\to}{\\longrightarrow}\n'
                    '\\renewcommand{\\subset}{\\varsubset}\n')
         eqs = []
+        cnt_macrotext = [0]
         for k in range(neq):
             while True:
                 rows = gen_eq(rnd, wid, ams=case['pack'] == '*')
                 if all(row_renders(r) for r in rows):
                     break
+            if macrotext:
+                for row in rows:
+                    for sec in row:
+                        for j, it in enumerate(sec):
+                            if it[0] == 'text' and rnd.random() < .6:
+                                sec[j] = ('text', ' ', 'ytxtz', ' ')
+                                cnt_macrotext[0] += 1
             if redef:
                 # (the new replacement text is an element: keep such an operator in front of an element)
                 for row in rows:
@@ -271,6 +286,8 @@ class C11(core.Check):
         cnt = {'equations': neq, 'seqs_docs' if case['seqs'] else 'full_docs': 1}
         if redef:
             cnt['docs_with_redefined_operators'] = 1
+        if cnt_macrotext[0] >= 2:
+            cnt['docs_with_macro_text_used_twice'] = 1
         if case.get('ml'):
             cnt['ml_docs'] = 1
         detail = dict(src=src, plain=t, stderr=err, lang=lang, seqs=case['seqs'])
@@ -357,7 +374,7 @@ class C11(core.Check):
 
     def quotas(self, tier):
         return {'ml_docs': 500, 'equations_judged': 5000, 'rows_judged': 10000, 'with_kept_punctuation': 2000,
-                'with_operator_word': 1500, 'simple_equations_judged': 1000, 'docs_with_redefined_operators': 500}
+                'with_operator_word': 1500, 'simple_equations_judged': 1000, 'docs_with_redefined_operators': 500, 'docs_with_macro_text_used_twice': 300}
 
 
 CHECK = C11
